@@ -83,7 +83,15 @@ int run_script(std::size_t block_size, const std::string& header)
         }
         else if (op == "top")
         {
-            auto m = st->top(); markers.push_back({m, live.size()});
+            auto m = st->top();
+            // the library's own comparison operators against every earlier marker that is still valid: older <= newer
+            for (std::size_t i = 0; i < markers.size(); ++i)
+            {
+                auto& e = markers[i].m;
+                bool ok = (e < m || e == m) && !(m < e) && (e <= m) && (m >= e) && !(e > m) && ((e == m) == !(e != m));
+                if (!ok) std::printf("marker_order_violation older=m%zu (index %zu, top %zu) newer=m%zu (index %zu, top %zu): < %d > %d <= %d >= %d reversed< %d\n", i, e.index, U.off(e.top), markers.size(), m.index, U.off(m.top), int(e < m), int(e > m), int(e <= m), int(e >= m), int(m < e));
+            }
+            markers.push_back({m, live.size()});
             char b[160]; std::snprintf(b, sizeof b, "m%zu %zu %zu %zu", markers.size() - 1, m.index, U.off(m.top), U.off(m.end));
             // ordering of markers against all earlier ones still valid on this stack is checked by the replay
             res = b;
@@ -131,7 +139,8 @@ int main()
     install_quiet_handlers();
     up().init();
     std::string line; std::getline(std::cin, line);
-    std::istringstream is(line); std::string kind, src; std::size_t bs; is >> kind >> bs >> src;
+    std::istringstream is(line); std::string kind, src, dir; std::size_t bs; is >> kind >> bs >> src >> dir;
+    if (dir == "down") up().descending = true;
     if (src == "fixed") return run_script<memory_stack<fixed_block_allocator<up_alloc>>>(bs, line);
     return run_script<memory_stack<up_alloc>>(bs, line);
 }
